@@ -90,7 +90,9 @@ func units(r Round) int {
 	n := 0
 	for _, w := range r.Workers {
 		if w.Kind == "dotimes" || w.Kind == "startgroup" {
-			n += w.N
+			if w.N > 0 { // a count <= 0 launches nothing and must not touch the counter
+				n += w.N
+			}
 		} else {
 			n++
 		}
@@ -135,7 +137,11 @@ func runCase(c *Case) (string, string) {
 				b.inc(1)
 			case "dotimes", "startgroup":
 				var idx atomic.Int64
-				mine := make([]chan struct{}, w.N)
+				launched := w.N
+				if launched < 0 {
+					launched = 0
+				}
+				mine := make([]chan struct{}, launched)
 				for i := range mine {
 					mine[i] = newGate()
 				}
@@ -145,7 +151,7 @@ func runCase(c *Case) (string, string) {
 				} else {
 					op.StartGroup(ctx, wg, w.N)
 				}
-				b.inc(w.N)
+				b.inc(launched)
 			}
 		}
 		if n := wg.Num(); n != total {
@@ -284,7 +290,7 @@ func genCase(t *rapid.T) *Case {
 		for i := 0; i < nw; i++ {
 			w := Worker{Kind: rapid.SampledFrom([]string{"add-done", "inc-done", "launch", "dotimes", "op-add", "startgroup"}).Draw(t, "kind")}
 			if w.Kind == "dotimes" || w.Kind == "startgroup" {
-				w.N = rapid.IntRange(0, 3).Draw(t, "n")
+				w.N = rapid.SampledFrom([]int{-2, -1, 0, 0, 1, 1, 2, 2, 3, 3}).Draw(t, "n")
 			}
 			r.Workers = append(r.Workers, w)
 		}
